@@ -44,9 +44,9 @@ import (
 const baseHeader = "From CSS Require Import Lib.Base Lib.Cases Model.EventLog Model.EventLogAlign Model.EventLogAlignCases."
 
 const (
-	findD20   = "C13-D20-rangesToChunks-index"
-	findNilM  = "C13-nil-measurement-deref"
-	findRange = "C13-range-beyond-image"
+	findD20    = "C13-D20-rangesToChunks-index"
+	findNilM   = "C13-nil-measurement-deref"
+	findRange  = "C13-range-beyond-image"
 	findOneReg = "C13-single-corrected-register"
 )
 
@@ -61,15 +61,15 @@ const (
 // ---------------------------------------------------------------- boots
 
 type boot struct {
-	name   string
-	coq    string // name of the Coq constant
-	tp     *tpm.TPM
-	proc   *bootengine.BootProcess
-	regs   bool
-	isz    uint64
+	name       string
+	coq        string // name of the Coq constant
+	tp         *tpm.TPM
+	proc       *bootengine.BootProcess
+	regs       bool
+	isz        uint64
 	simErrSHA1 bool // the flow is one alignLogAndMeasurements rejects (for the SHA1 bank)
-	def    string
-	measOf []int // per tpm.CommandLog entry: index in State.MeasuredData of measuredDataMap[CauseAction], -1 = nil
+	def        string
+	measOf     []int // per tpm.CommandLog entry: index in State.MeasuredData of measuredDataMap[CauseAction], -1 = nil
 }
 
 func mkState(reg uint64, withRegs bool, flow types.Flow) (*tpm.TPM, *bootengine.BootProcess) {
@@ -286,6 +286,38 @@ func (b *boot) pcr0(alg tpm2.Algorithm) (mIdx, evIdx int, raw []byte) {
 	return -1, -1, nil
 }
 
+// the measurement whose data hashes to the digest of simulated event i (-1: none, the event was only logged);
+// measurements with identical data are told apart by their order
+func (b *boot) measurementOfEvent(i int) int {
+	s := b.proc.CurrentState
+	ev := &b.tp.EventLog[i]
+	// rank of the event among the events of its bank with the same digest
+	rank := 0
+	for j := 0; j < i; j++ {
+		if b.tp.EventLog[j].PCRIndex == ev.PCRIndex && b.tp.EventLog[j].HashAlgo == ev.HashAlgo && bytes.Equal(b.tp.EventLog[j].Digest, ev.Digest) {
+			rank++
+		}
+	}
+	for j := range s.MeasuredData {
+		m := &s.MeasuredData[j]
+		if m.TrustChain != types.TrustChain(b.tp) {
+			continue
+		}
+		var cb, rb []byte
+		if pan, _ := gal.Recover(func() { cb = m.ConvertedBytes(); rb = m.RawBytes() }); pan {
+			continue
+		}
+		// the action hashes the (converted) data, or the converter already is the hash
+		if bytes.Equal(hashOf(ev.HashAlgo, cb), ev.Digest) || bytes.Equal(cb, ev.Digest) || bytes.Equal(hashOf(ev.HashAlgo, rb), ev.Digest) {
+			if rank == 0 {
+				return j
+			}
+			rank--
+		}
+	}
+	return -1
+}
+
 type pcr0Info struct {
 	m, ev int
 	raw   []byte
@@ -466,7 +498,7 @@ func (g *genCtx) pcr0Digest(v uint64) []byte {
 		d = hashOf(g.alg, buf)
 		g.hp = append(g.hp, hpEntry{p.m, v, d})
 	}
-	return d
+	return append([]byte{}, d...) // the caller's copy may be edited later; the table entry must not change with it
 }
 
 func (g *genCtx) randDigest() []byte {
@@ -550,8 +582,18 @@ func (g *genCtx) edit() {
 		g.ops = append(g.ops, fmt.Sprintf("retype %d to %#x", at, uint32(g.evs[at].Type)))
 	case 6: // re-digest
 		at := pick()
-		g.evs[at].Digest.Digest = g.randDigest()
-		g.ops = append(g.ops, fmt.Sprintf("re-digest %d", at))
+		if rng.Intn(2) == 0 && len(g.evs[at].Digest.Digest) > 0 { // one flipped bit, anywhere (often in the last bytes)
+			d := g.evs[at].Digest.Digest
+			pos := rng.Intn(len(d))
+			if rng.Intn(2) == 0 {
+				pos = len(d) - 1 - rng.Intn(4)%len(d)
+			}
+			d[pos] ^= 1 << uint(rng.Intn(8))
+			g.ops = append(g.ops, fmt.Sprintf("flip one bit in byte %d of the digest of %d", pos, at))
+		} else {
+			g.evs[at].Digest.Digest = g.randDigest()
+			g.ops = append(g.ops, fmt.Sprintf("re-digest %d", at))
+		}
 	case 7: // event data
 		at := pick()
 		var what string
@@ -1114,6 +1156,21 @@ func doCase(c *gal.Ctx, kind string, g *genCtx, nilLog bool) {
 		fail(fmt.Sprintf("simulated events are not conserved: result has simulated indexes %v, the simulated PCR0 events of the bank are %v", gotCalc, sims))
 		return
 	}
+	// 1b. an entry carries the measurement that produced its simulated event (or none if the event was only logged)
+	for k, e := range o.Entries {
+		if e.Calc < 0 {
+			if e.Meas != -1 && e.Status == 3 {
+				fail(fmt.Sprintf("entry %d has no simulated event but a measurement", k))
+				return
+			}
+			continue
+		}
+		want := b.measurementOfEvent(e.Calc)
+		if e.Meas != want {
+			fail(fmt.Sprintf("entry %d pairs simulated event %d with measurement %d, its own measurement is %d", k, e.Calc, e.Meas, want))
+			return
+		}
+	}
 	// 2. truthful statuses
 	pAll := b.pcr0All(g.alg)
 	_, pe, _ := b.pcr0(g.alg)
@@ -1480,7 +1537,7 @@ func main() {
 	}
 
 	// ---- event data with (offset,length) pairs on a mismatching / unexpected entry
-	for k := 0; k < c.Scale(120, 1200); k++ {
+	for k := 0; k < c.Scale(160, 1200); k++ {
 		b := good[c.Rng.Intn(len(good))]
 		alg := algs[c.Rng.Intn(2)]
 		g := newGen(c, b, alg)
@@ -1505,7 +1562,7 @@ func main() {
 	}
 
 	// ---- random edit scripts of 1..4 operations
-	for k := 0; k < c.Scale(520, 6000); k++ {
+	for k := 0; k < c.Scale(700, 6000); k++ {
 		b := good[c.Rng.Intn(len(good))]
 		if c.Rng.Intn(40) == 0 {
 			b = badBoot
